@@ -843,8 +843,10 @@ class NumAnalysis:
         if not any(callee.startswith(p) for p in PURE_PREFIXES + self.pure_calls):
             for a, t in zip(c["args"], c["argtys"]):
                 if "closure" in t:
-                    self.havoc_mem(st)
-                    break
+                    if self.closure_captures_mut(a):
+                        self.havoc_mem(st)
+                        break
+                    continue
                 if t.startswith("&mut"):
                     pj = a.get("mv") or a.get("cp")
                     root = self.ref_root_deep(mk_place(pj)) if pj is not None else None
@@ -872,6 +874,17 @@ class NumAnalysis:
                     v = ("mlen", root[0], root[1])
                     return dict(lo=max(0, st.z.lo(v)), hi=min(LEN_MAX, st.z.hi(v)), rel=[(v, 0, 0)])
         return dict(lo=0, hi=LEN_MAX, rel=[])
+
+    def closure_captures_mut(self, a):
+        """does the closure operand capture any `&mut` reference (looked up at its aggregate construction)?"""
+        pj = a.get("mv") or a.get("cp")
+        if pj is None or pj.get("p"):
+            return True
+        for blk in self.fn.blocks:
+            for s in blk.stmts:
+                if "a" in s and s["a"]["l"] == pj["l"] and not s["a"].get("p") and s["rv"].get("agg") == "closure":
+                    return any(self.op_ty(f).startswith("&mut") for f in s["rv"]["fields"])
+        return True
 
     def havoc_prefix(self, st, root):
         l, proj = root
